@@ -197,7 +197,7 @@ impl Report {
         }
         self.bounds.push(json!({
             "harness": h.name(),
-            "bound_completed": st.bound_completed.map(|b| json!({"preemptions": b.preempt, "env_deviations": b.env})),
+            "bound_completed": st.bound_completed.map(|b| json!({"preemptions": b.preempt, "env_deviations": b.env, "total_deviations": b.total})),
             "executions": st.executions,
             "states": st.states,
             "transitions": st.transitions,
@@ -241,7 +241,7 @@ impl Report {
             "harness": v.harness,
             "params": v.params,
             "choices": v.choices,
-            "bound": {"preemptions": v.bound.preempt, "env_deviations": v.bound.env},
+            "bound": {"preemptions": v.bound.preempt, "env_deviations": v.bound.env, "total_deviations": v.bound.total},
             "trace": trace,
         });
         if let Some(k) = known {
